@@ -7,7 +7,10 @@
 id=$1; shift; out=/verif/seeded/$id; iso=/tmp/iso-$id
 rm -rf $iso; mkdir -p $iso
 git -C /repo worktree add -q --detach $iso/repo HEAD || exit 2
+# (id _none: the unchanged tree, for checking a harness edit while /repo is in use)
+if [ "$id" != "_none" ]; then
 git -C $iso/repo apply $out/patch.diff || { echo "patch does not apply"; git -C /repo worktree remove --force $iso/repo; rm -rf $iso; exit 2; }
+fi
 mkdir -p $iso/verif
 rsync -a --exclude target --exclude runs --exclude replays --exclude evidence --exclude seeded --exclude .git /verif/ $iso/verif/
 sed -i "s|path = \"/repo\"|path = \"$iso/repo\"|" $iso/verif/harness/Cargo.toml
